@@ -1,6 +1,6 @@
 (* C11 -- exchanging prediction and reference mirrors the result. *)
-From Pan Require Import Base.Common Model.MetricTable Model.Metrics Model.Matcher Proofs.Matching Proofs.MatcherQ
-  Proofs.MetricsFacts Proofs.Invariance.
+From Pan Require Import Base.Common Base.Rnd64 Model.MetricTable Model.Metrics Model.Matcher Model.EdgeCase Model.Result Model.Relabel Model.Pipeline
+  Proofs.Matching Proofs.MatcherQ Proofs.MetricsFacts Proofs.C04Proofs Proofs.Invariance Proofs.ResultEquiv Proofs.ExchangeResult Proofs.ExchangeInvariance.
 Open Scope Z_scope.
 
 (* IoU and Dice of a pair are unchanged when the roles are exchanged *)
@@ -40,3 +40,56 @@ Example C11_nonvacuous :
   | Ok q, Ok q' => Qeq_bool q (-1 # 2) = true /\ Qeq_bool q' 1 = true /\ Qeq_bool q' (- q / (1 + q)) = true
   | _, _ => False end.
 Proof. vm_compute. repeat split; reflexivity. Qed.
+
+(* ---- the whole evaluation ----
+   [result_mirror r s]: num_pred r = num_ref s and vice versa, the same tp, fp r = fn s and fn r = fp s, precision r = recall s
+   and vice versa, the same rq, and per metric the per-instance list permuted, sq, std and pq equal (as rationals).
+   [swap2 a]: the voxel list with the two labels of every voxel exchanged.  [mirror_cfg c]: the configuration whose edge case
+   handler has its EMPTY_PRED / EMPTY_REF entries exchanged with the roles (the default handler is its own mirror image).
+   RVD is excluded from the evaluated metrics here ([no_rvd]): its values transform by r -> -r/(1+r) (C11_rvd_mirrored). *)
+
+(* the result object: exchanging the two instance counts (same tp, same lists) mirrors every derived quantity *)
+Theorem C11_result_object_mirrored : forall i, 0 <= r_np i -> 0 <= r_nr i ->
+  res_rel result_mirror (panoptica_result i) (panoptica_result (mirror_rin i)).
+Proof. exact panoptica_result_mirror. Qed.
+
+(* matched input / the evaluation phase of any input type *)
+Theorem C11_evaluation_phase_mirrored : forall x x' c a, no_rvd (c_ems c) ->
+  (forall m l, In l (matched_labels a) -> x_inst x' m l = x_inst x m l) ->
+  res_rel result_mirror (eval_phase x c a) (eval_phase x' (mirror_cfg c) (swap2 a)).
+Proof. exact eval_phase_swap. Qed.
+
+(* unmatched input, one-to-one threshold matcher, symmetric matching metric, matching determined *)
+Theorem C11_unmatched_input_pipeline_mirrored : forall x x' c a,
+  nonneg_arr a -> c_matcher c = 1 -> no_rvd (c_ems c) ->
+  (forall rp, In rp (overlap_pairs a) -> x_pair x' (exch rp) = x_pair x rp) ->
+  (forall M, naive_match (decreasing (c_mmetric c)) false (c_mthr c) (cand_list x (c_mmetric c) a) = Ok M ->
+     forall m d, In d M -> x_inst x' m (cpred d) = x_inst x m (cref d)) ->
+  competing_distinct Q (better_eq (decreasing (c_mmetric c))) (fun s => beats (decreasing (c_mmetric c)) s (c_mthr c)) false
+    (cand_list x (c_mmetric c) a) ->
+  res_rel result_mirror (pipeline x c a) (pipeline x' (mirror_cfg c) (swap2 a)).
+Proof. exact pipeline_exchange. Qed.
+
+Theorem C11_default_handler_is_symmetric : mirror_handler default_handler = default_handler.
+Proof. reflexivity. Qed.
+
+(* non-vacuity: two matched pairs, one rejected candidate, one spurious prediction -> (tp, fp, fn) = (2, 1, 0) and (2, 0, 1) *)
+Definition ex11_a : arr2 := [(1, 1); (1, 1); (1, 2); (2, 2); (2, 2); (0, 3)].
+Definition ex11_x : ext := {| x_inst := fun _ _ => 0%Q; x_pair := fun _ => 0%Q; x_union := fun _ _ => 0%Q |}.
+Definition ex11_c : cfg := {| c_matcher := 1; c_mmetric := IOU; c_mthr := (1 # 2)%Q; c_ems := [IOU; DSC]; c_dm := None; c_dthr := None;
+                              c_handler := default_handler |}.
+Example C11_pipeline_nonvacuous :
+  nonneg_arr ex11_a /\ no_rvd (c_ems ex11_c) /\
+  competing_distinct Q (better_eq false) (fun s => beats false s (1 # 2)%Q) false (cand_list ex11_x IOU ex11_a) /\
+  (exists r, pipeline ex11_x ex11_c ex11_a = Ok r /\ o_tp r = 2 /\ o_fp r = 1 /\ o_fn r = 0) /\
+  (exists r, pipeline ex11_x (mirror_cfg ex11_c) (swap2 ex11_a) = Ok r /\ o_tp r = 2 /\ o_fp r = 0 /\ o_fn r = 1).
+Proof.
+  split; [intros v Hv; cbn in Hv; repeat (destruct Hv as [<-|Hv]; [cbn; lia|]); destruct Hv|].
+  split; [intros H; cbn in H; repeat (destruct H as [H|H]; [discriminate|]); exact H|].
+  split.
+  - intros u v Hu Hv Bu Bv Hcf Hne. vm_compute in Hu, Hv.
+    destruct Hu as [<-|[<-|[<-|[]]]]; destruct Hv as [<-|[<-|[<-|[]]]];
+      try (vm_compute in Bu; discriminate); try (vm_compute in Bv; discriminate); try (vm_compute in Hcf; discriminate);
+      exfalso; apply Hne; reflexivity.
+  - split; eexists; (split; [vm_compute; reflexivity|cbn; auto]).
+Qed.
